@@ -406,13 +406,15 @@ func (c *core) fastForward(block *hg.Block, frame *hg.Frame) error {
 
 // checkFastForward verifies that a Block and the associated Frame may be used
 // to reset the hashgraph, without modifying anything: the Block must carry
-// enough valid signatures from the Frame's peer-set, and the Frame must hash to
-// the Block's frame hash.
+// enough valid signatures from members of the Frame's peer-set that this node
+// already knows as validators, and the Frame must hash to the Block's frame
+// hash.
 func (c *core) checkFastForward(block *hg.Block, frame *hg.Frame) error {
 	peerSet := peers.NewPeerSet(frame.Peers)
 
-	// Check Block Signatures
-	err := c.hg.CheckBlock(block, peerSet)
+	// Check Block Signatures. The peer-set comes from the response itself, so
+	// only count the signatures of validators we already know about.
+	err := c.hg.CheckBlockWithTrusted(block, peerSet, c.knownValidators())
 	if err != nil {
 		return err
 	}
@@ -428,6 +430,28 @@ func (c *core) checkFastForward(block *hg.Block, frame *hg.Frame) error {
 	}
 
 	return nil
+}
+
+// knownValidators returns the public keys (as in PeerSet.ByPubKey) of all the
+// validators this node has reason to trust: its configured peers, the genesis
+// peers, the current validators, and the peer-sets recorded in its store.
+func (c *core) knownValidators() map[string]bool {
+	known := make(map[string]bool)
+	for _, ps := range []*peers.PeerSet{c.peers, c.genesisPeers, c.validators} {
+		if ps != nil {
+			for k := range ps.ByPubKey {
+				known[k] = true
+			}
+		}
+	}
+	if all, err := c.hg.Store.GetAllPeerSets(); err == nil {
+		for _, ps := range all {
+			for _, p := range ps {
+				known[p.PubKeyString()] = true
+			}
+		}
+	}
+	return known
 }
 
 // getAnchorBlockWithFrame returns GetAnchorBlockWithFrame from the hashgraph
